@@ -3,6 +3,63 @@ import vp
 from checks import loadfam
 
 
+def run_l2(run, cases, nprojects):
+    """generated code: td_string! / td! of every key in every locale must show the text of the fallback source"""
+    import os
+    import random
+    import probe
+    rng = random.Random(run.seed)
+    def interesting(c):
+        inh = c["abs"]["inh"]
+        vals = [v for v in inh.values() if v != "none"]
+        return len(vals) >= 2
+    pool = [c for c in cases if interesting(c)]
+    chosen = pool if len(pool) <= nprojects else rng.sample(pool, nprojects)
+    projects, meta = [], []
+    for pi, c in enumerate(chosen):
+        a = c["abs"]
+        locs = [a["def"]] + list(a["nondef"])
+        calls, info = [], {}
+        for j, k in enumerate(a["keys"]):
+            paths = [([k["name"]], 0)] if k["kind"] == "v" else [([k["name"], lf["name"]], q + 1) for q, lf in enumerate(k["leaves"])]
+            for path, q in paths:
+                for loc in locs:
+                    for flav in (("td_string", "td") if j % 7 == 0 else ("td_string",)):
+                        cid = len(calls) + 1
+                        calls.append({"id": cid, "flav": flav, "locale": loc, "path": path, "args": []})
+                        info[cid] = {"j": j + 1, "q": q, "locale": loc, "flav": flav}
+        projects.append({"name": "c03p%d" % pi, "cfg": c["cfg"], "files": c["files"], "calls": calls})
+        meta.append(info)
+    results, log = probe.build_and_run(run, projects, tag="_c03")
+    trace = []
+    for pi, p in enumerate(projects):
+        r = results[p["name"]]
+        if not r["built"]:
+            run.violation("l2-build;inh=%s" % sorted(chosen[pi]["abs"]["inh"].items()), "probe does not compile", {"build_log": r["build_log"] or log[-2000:]})
+            continue
+        for ev in r["events"]:
+            m = meta[pi][ev["call"]]
+            trace.append({"ev": "Render", "case": pi + 1, "j": m["j"], "q": m["q"], "locale": m["locale"], "flav": m["flav"],
+                          "outcome": ev["outcome"], "out": probe.to_syms(ev["out"])})
+    trace.append({"ev": "End"})
+    wd = os.path.join(run.workdir, "l2")
+    os.makedirs(wd, exist_ok=True)
+    tpath, cpath = os.path.join(wd, "trace.ndjson"), os.path.join(wd, "cases.ndjson")
+    vp.write_ndjson(tpath, trace)
+    vp.write_ndjson(cpath, [{"id": i + 1, "abs": c["abs"]} for i, c in enumerate(chosen)])
+    summary, rejects, _ = vp.trace_validate("Trace_Fallback", "Trace_Fallback.cfg", wd, tpath, cpath)
+    if summary["consumed"] != summary["events"]:
+        raise vp.ToolError("trace spec consumed %s of %s events" % (summary["consumed"], summary["events"]))
+    run.traces += len(projects)
+    run.events += summary["events"]
+    for rj in rejects:
+        ev = trace[rj["l"] - 1]
+        a = chosen[ev["case"] - 1]["abs"]
+        run.violation("l2;inh=%s;key=%s;locale=%s;%s" % (sorted(a["inh"].items()), a["keys"][ev["j"] - 1]["name"], ev["locale"], ev["flav"]),
+                      "generated code shows %r" % vp.text_of(ev["out"]), {"event": ev, "inherits": a["inh"]})
+    return len(trace) - 1
+
+
 def check(run):
     cfg = "MC_Fallback_quick.cfg" if run.tier == "quick" else "MC_Fallback_thorough.cfg"
     cases, res = loadfam.gen_cases(run, "MC_Fallback", cfg)
@@ -12,10 +69,13 @@ def check(run):
                     "first_key": c["abs"]["keys"][0]} for c in cases[:3]]
     loadfam.replay_load(run, cases, "Trace_Fallback", "Trace_Fallback.cfg",
                         key_of=lambda c, r: "inh=%s;%s" % (sorted(c["abs"]["inh"].items()), sorted(r["tags"])[0]))
+    run.notes["l2_render_events"] = run_l2(run, cases, 6 if run.tier == "quick" else 60)
     run.exhaustive = True
-    run.assumptions = ["TLC explores every inherits map over the locale set and every presence pattern of one key;"
+    run.assumptions = ["L2: a seeded sample of the projects (inherits maps with at least two entries) is compiled with load_locales!() and td_string! (td! on a subset) is executed "
+                       "for every key, leaf and locale; the rendered text names the locale whose file it came from",
+                       "TLC explores every inherits map over the locale set and every presence pattern of one key;"
                        " the projects replayed carry every pattern as a distinct key",
-                       "observation at the parser level (DefaultedLocales, per-locale trees); generated code is observed by the L2 checks"]
+                       "L1 observes DefaultedLocales and per-locale trees of parse_locales()"]
     return run.finish("one project per inherits map (all maps over the locale set incl. self reference and cycles); "
                       "every presence pattern {defined,null,absent} per locale for value keys and for two-leaf groups; "
                       "a case is non-trivial when at least one locale does not define the key",
